@@ -44,7 +44,14 @@ type vfCMsg struct {
 	herr   error
 }
 
+type vfCHealthSeen struct {
+	to, leader    string
+	term, preTerm int
+}
+
 type vfCWorld struct {
+	health   *vfCHealthSeen // the health check delivered by the current event
+	healthPending []*vfCHealthSeen
 	names    []string
 	nodes    map[string]*Cluster
 	inflight []*vfCMsg
@@ -360,6 +367,7 @@ func (w *vfCWorld) apply(o vfCOp) string {
 					var in ClusterHealth
 					gobCopy(&in, a)
 					var unused bool
+					w.health = &vfCHealthSeen{to: m.to, term: in.Term, preTerm: target.fo.term, leader: in.Leader}
 					m.herr = target.Health(&in, &unused)
 					m.reply = &unused
 				case *ClusterVoteRequest:
@@ -399,6 +407,25 @@ func (w *vfCWorld) apply(o vfCOp) string {
 		w.isolated = ""
 	}
 	vsched.Quiesce()
+	// "a node that accepts a health check adopts the leader's term": a check whose term is not
+	// below the receiver's is accepted; once the receiver has taken it from its queue (it may be
+	// busy with an election meanwhile) it is at that term, or beyond
+	if w.health != nil {
+		w.healthPending = append(w.healthPending, w.health)
+		w.health = nil
+	}
+	keep := w.healthPending[:0]
+	for _, h := range w.healthPending {
+		n := w.nodes[h.to]
+		if len(n.fo.healthCheck) > 0 {
+			keep = append(keep, h)
+			continue
+		}
+		if h.term >= h.preTerm && n.fo.term < h.term {
+			w.bad("C17:health-check-accepted-without-adopting-term", fmt.Sprintf("%s (term %d) accepted the health check of leader %s for term %d and stays at term %d", h.to, h.preTerm, h.leader, h.term, n.fo.term), nil)
+		}
+	}
+	w.healthPending = keep
 	if o.Kind == "heal" {
 		// every link which is waiting to reconnect does so now
 		for guard := 0; guard < 100 && vsched.FireTimer(func(t vsched.TimerInfo) bool { return t.Periodic && !strings.HasPrefix(t.Owner, "node:") }); guard++ {
@@ -837,6 +864,45 @@ func init() {
 		Exec: vfCExec(c4s), MaxDepth: func(th bool) int { return c4s(th).Depth }}
 }
 
+// vfCPrefixSplit: the election timers of the first and the last node fire before any message is
+// delivered: two candidates ask for votes in the same term. The search starts from there, so that
+// split votes (grants and refusals reaching one candidate in every order) lie within a small budget.
+func vfCPrefixSplit(w *vfCWorld) {
+	last := len(w.names) - 1
+	asked := func(n string) bool {
+		for _, m := range w.inflight {
+			if m.from == n && m.method == "Cluster.Vote" {
+				return true
+			}
+		}
+		return false
+	}
+	for round := 0; round < 12 && !(asked(w.names[0]) && asked(w.names[last])); round++ {
+		for _, n := range []int{0, last} {
+			if !asked(w.names[n]) {
+				w.apply(vfCOp{Kind: "tick", Node: n})
+			}
+		}
+	}
+	if !(asked(w.names[0]) && asked(w.names[last])) {
+		vsched.Fail("harness", "prefix: no two simultaneous candidates")
+	}
+}
+
+func init() {
+	n4 := []string{"a", "b", "c", "d"}
+	c4v := func(th bool) vfCConfig {
+		if th {
+			return vfCConfig{Names: n4, MaxTerm: 2, Budget: 2, Depth: 200, Prefix: vfCPrefixSplit}
+		}
+		return vfCConfig{Names: n4, MaxTerm: 2, Budget: 1, Depth: 200, Prefix: vfCPrefixSplit}
+	}
+	ops4 := vfCOps(4)
+	vfXModels["c17n4v"] = &vfXModel{Name: "c17n4v", NumOps: len(ops4), OpName: func(i int) string { return ops4[i].name(n4) },
+		Exec: vfCExec(c4v), MaxDepth: func(th bool) int { return c4v(th).Depth }}
+}
+
+func TestVerifC17Split4(t *testing.T)    { vfXSearch(t, "C17", "split4", "c17n4v") }
 func TestVerifC17Excluded3(t *testing.T) { vfXSearch(t, "C17", "excluded3", "c17n3s") }
 func TestVerifC17Excluded4(t *testing.T) { vfXSearch(t, "C17", "excluded4", "c17n4s") }
 func TestVerifC17Election3(t *testing.T) { vfXSearch(t, "C17", "election3", "c17n3") }
